@@ -26,8 +26,11 @@ class Plan:
         self.refired = 0
         self.die_at = None  # a SECOND fault: the process dies at this (later) operation index - whatever the code does after the first fault
         self.die_after = None  # ... or right AFTER that operation has taken effect (e.g. after an open(..., "w") has truncated its file)
+        self.probe = None  # called before every intercepted file operation (an observer - another thread, another process - looking in between)
 
     def op(self, name, detail=None):
+        if self.probe is not None:
+            self.probe(self.count, name)
         self.count += 1
         self.ops.append(name)
         if self.die_at is not None and self.count == self.die_at and self.fired is not None:
